@@ -53,7 +53,7 @@ def do_vol_up(self, step_size: float, function: str):
     """
     value = "Up"
     if step_size in [1, 2, 5]:
-        value = "Up {} dB".format(step_size)
+        value = "Up {} dB".format(int(step_size))
     self._put(function, value)
 
 
@@ -64,7 +64,7 @@ def do_vol_down(self, step_size: float, function: str):
     """
     value = "Down"
     if step_size in [1, 2, 5]:
-        value = "Down {} dB".format(step_size)
+        value = "Down {} dB".format(int(step_size))
     self._put(function, value)
 
 
